@@ -36,7 +36,7 @@
 EXTENDS WirePrims
 
 CONSTANTS PVs,            \* protocol versions enumerated (the composite layer only distinguishes < 3 and >= 3)
-          Families,       \* subset of {"scalar","list","set","map","tuple","udt","vector","nest2","nest3","range","tz","wide","inettext"}
+          Families,       \* subset of {"scalar","list","set","map","tuple","udt","vector","nest2","nest3","range","tz","wide","inettext","big"}
           TopScalars,     \* scalar types enumerated alone, with their full boundary alphabet
           ElemScalars,    \* element types of depth-1 lists / sets
           KeyScalars, ValScalars,   \* depth-1 maps
@@ -391,9 +391,10 @@ RangeSeed == <<"range">>
 TzSeed    == <<"tz">>
 WideSeed  == <<"wide">>
 InetSeed  == <<"inettext">>
+BigSeed   == <<"big">>
 Types == Pick("scalar", {Sc(s) : s \in TopScalars}) \cup Pick("list", T_list) \cup Pick("set", T_set) \cup Pick("map", T_map)
          \cup Pick("tuple", T_tuple) \cup Pick("udt", T_udt) \cup Pick("vector", T_vector)
-         \cup Pick("nest2", T_nest2) \cup Pick("nest3", T_nest3) \cup Pick("range", {RangeSeed}) \cup Pick("tz", {TzSeed}) \cup Pick("wide", {WideSeed}) \cup Pick("inettext", {InetSeed})
+         \cup Pick("nest2", T_nest2) \cup Pick("nest3", T_nest3) \cup Pick("range", {RangeSeed}) \cup Pick("tz", {TzSeed}) \cup Pick("wide", {WideSeed}) \cup Pick("inettext", {InetSeed}) \cup Pick("big", {BigSeed})
 
 \* what a protocol version can carry at the top level: no null element in a v1/v2 collection ([short] lengths are
 \* unsigned); vectors exist only in Cassandra releases that speak v3+ (nested ones are always in the >= 3 format)
@@ -561,6 +562,31 @@ InetShapes ==
     \cup {<<TupleOf(<<TInt, TInet>>), <<None, Some(x)>>, <<None, Some(x.addr)>>>> : x \in InetReadings}
     \cup {<<UdtOf(<<TInet, TText>>), <<Some(x), None>>, <<Some(x.addr), None>>>> : x \in InetReadings}
 
+\* ------------------------------------------------------------------ large collections and elements, described compactly
+\* The boundaries of the length fields themselves: a v1/v2 collection size / element length is an UNSIGNED [short]
+\* (native_protocol_v2.spec section 6: "[short] n ... followed by n elements", "[short bytes]"), so 32767 / 32768 / 65535
+\* elements, and elements of 32767 / 32768 / 65535 bytes, are legal; the size of a variable-width vector element is an
+\* unsigned vint whose length changes at 2^7 and 2^14 (VIntCoding.computeUnsignedVIntSize: one byte per 7 bits).
+\* Writing such values out as explicit sequences is pointless: the value is [kind, n, elem] and the encoding is
+\* [pre, n, unit, post] = the bytes pre ++ (unit repeated n times) ++ post; the harness expands both.
+\*   "count":    a list of n elements, each equal to elem
+\*   "elemsize": a list of two elements: n times the byte elem[1], then the one-byte element <<98>>
+\*   "vecsize":  a vector of dimension 2 with the same two elements (variable-width element type)
+BigCounts == {32767, 32768, 65535}
+BigSizes  == {32767, 32768, 65535}
+VecSizes  == {127, 128, 8191, 8192, 16383, 16384}
+Packed(pre, n, unit, post) == [pre |-> pre, n |-> n, unit |-> unit, post |-> post]
+ElemByte(e) == IF e = "text" THEN 97 ELSE 200
+BigShapes(p) ==
+    {[kind |-> "count", ty |-> ListOf(Sc(e)), n |-> N, elem |-> (IF e = "text" THEN <<>> ELSE <<200>>),
+      enc |-> LET x == IF e = "text" THEN <<>> ELSE <<200>> IN Packed(CLen(p, N), N, CLen(p, Len(x)) \o x, <<>>)] :
+        e \in {"text", "blob"}, N \in BigCounts}
+    \cup {[kind |-> "elemsize", ty |-> ListOf(Sc(e)), n |-> S, elem |-> <<ElemByte(e)>>,
+           enc |-> Packed(CLen(p, 2) \o CLen(p, S), S, <<ElemByte(e)>>, CLen(p, 1) \o <<98>>)] : e \in {"text", "blob"}, S \in BigSizes}
+    \cup (IF p >= 3 THEN {[kind |-> "vecsize", ty |-> VecOf(Sc(e), 2), n |-> S, elem |-> <<ElemByte(e)>>,
+                           enc |-> Packed(UVInt(S), S, <<ElemByte(e)>>, UVInt(1) \o <<98>>)] : e \in {"text", "blob"}, S \in VecSizes}
+           ELSE {})
+
 -----------------------------------------------------------------------------
 VARIABLES ty, pv, val, enc, img, norm, expect
 vars == <<ty, pv, val, enc, img, norm, expect>>
@@ -568,7 +594,7 @@ vars == <<ty, pv, val, enc, img, norm, expect>>
 Init == /\ ty \in Types
         /\ pv = 0 /\ val = <<>> /\ enc = <<>> /\ img = {} /\ norm = <<>> /\ expect = "seed"
 
-Case == /\ expect = "seed" /\ ty \notin {RangeSeed, TzSeed, WideSeed, InetSeed}
+Case == /\ expect = "seed" /\ ty \notin {RangeSeed, TzSeed, WideSeed, InetSeed, BigSeed}
         /\ \E p \in PVs, v \in Vals(ty, 0, FALSE) :
               /\ Admissible(ty, v, p)
               /\ pv' = p /\ val' = v
@@ -590,7 +616,7 @@ RangeCase == /\ expect = "seed" /\ ty = RangeSeed
 \* A result cell that is null ([bytes] of length -1) or empty (length 0).  Null is null for every type.  An empty cell is
 \* the empty string for the string-like types; for every other type the driver documents that it "normally returns None"
 \* (cqltypes: support_empty_values) - the legacy Thrift "empty" value.
-CellCase == /\ expect = "seed" /\ ty \notin {RangeSeed, TzSeed, WideSeed, InetSeed}
+CellCase == /\ expect = "seed" /\ ty \notin {RangeSeed, TzSeed, WideSeed, InetSeed, BigSeed}
             /\ \E p \in PVs, k \in {"null", "empty"} :
                   /\ pv' = p /\ expect' = k
                   /\ norm' = IF k = "empty" /\ IsScalar(ty) /\ Kind(ty) \in {"text", "ascii", "blob"} THEN Some(<<>>) ELSE None
@@ -625,13 +651,22 @@ InetTextCase == /\ expect = "seed" /\ ty = InetSeed
                       /\ norm' = Norm(sh[1], sh[3])
                       /\ expect' = "ok"
 
-Next == Case \/ RangeCase \/ CellCase \/ TzCase \/ WideCase \/ InetTextCase
+\* expect = "big": like "ok" once the harness has expanded value and bytes; judged on the specification by BigOK
+BigCase == /\ expect = "seed" /\ ty = BigSeed
+           /\ \E p \in PVs : \E sh \in BigShapes(p) :
+                 /\ pv' = p /\ ty' = sh.ty
+                 /\ val' = [kind |-> sh.kind, n |-> sh.n, elem |-> sh.elem]
+                 /\ enc' = sh.enc /\ img' = {sh.enc}
+                 /\ norm' = [kind |-> sh.kind, n |-> sh.n, elem |-> sh.elem]
+                 /\ expect' = "big"
+
+Next == Case \/ RangeCase \/ CellCase \/ TzCase \/ WideCase \/ InetTextCase \/ BigCase
 Spec == Init /\ [][Next]_vars
 
 -----------------------------------------------------------------------------
 \* ------------------------------------------------------------------ invariants on the specification itself
 IsBytes(b) == \A i \in 1..Len(b) : b[i] \in 0..255
-TypeOK == /\ expect \in {"seed", "ok", "raise", "null", "empty", "wide", "wraise"}
+TypeOK == /\ expect \in {"seed", "ok", "raise", "null", "empty", "wide", "wraise", "big"}
           /\ expect = "wide" => pv \in PVs /\ IsBytes(enc) /\ img = {enc}
           /\ expect = "ok" => pv \in PVs /\ IsBytes(enc) /\ enc \in img /\ \A e \in img : IsBytes(e)
 
@@ -681,6 +716,24 @@ WideLong == /\ expect = "wide" /\ ty = Sc("bigint") => Len(enc) = 8 /\ FitsLong(
 Witness_WideNeg8 == ~(expect = "wide" /\ ty = TVarint /\ val.neg /\ Len(enc) = 8)
 Witness_Wide9    == ~(expect = "wide" /\ ty = Sc("decimal") /\ Len(enc) = 13)
 Witness_WideRaise == ~(expect = "wraise")
+
+\* ------------------------------------------------------------------ large collections / elements
+\* the header fields read back (unsigned on v1/v2) as the count / the sizes the body then has; the vint is canonical
+BigOK == expect = "big" =>
+    LET w == IF pv >= 3 THEN 4 ELSE 2 IN
+    /\ IsBytes(enc.pre) /\ IsBytes(enc.unit) /\ IsBytes(enc.post) /\ enc.n = val.n /\ img = {enc} /\ norm = val
+    /\ val.kind = "count" =>
+           /\ RdCLen(enc.pre, 1, pv) = R(val.n, w + 1) /\ Len(enc.pre) = w
+           /\ RdCLen(enc.unit, 1, pv).v = Len(val.elem) /\ SubSeq(enc.unit, w + 1, Len(enc.unit)) = val.elem /\ enc.post = <<>>
+    /\ val.kind = "elemsize" =>
+           /\ RdCLen(enc.pre, 1, pv).v = 2 /\ RdCLen(enc.pre, w + 1, pv) = R(val.n, 2 * w + 1) /\ Len(enc.pre) = 2 * w
+           /\ enc.unit = val.elem /\ RdCLen(enc.post, 1, pv).v = 1 /\ Len(enc.post) = w + 1
+    /\ val.kind = "vecsize" =>
+           /\ RdUVInt(enc.pre, 1) = R(val.n, Len(enc.pre) + 1) /\ CanonVInt(enc.pre, 1)
+           /\ Len(enc.pre) = (IF val.n < 128 THEN 1 ELSE IF val.n < 16384 THEN 2 ELSE 3)
+           /\ enc.unit = val.elem /\ enc.post = <<1, 98>>
+Witness_BigCountV2 == ~(expect = "big" /\ pv < 3 /\ val.kind = "count" /\ val.n > 32767)
+Witness_BigVec14   == ~(expect = "big" /\ val.kind = "vecsize" /\ val.n = 8192)
 
 \* ------------------------------------------------------------------ vacuity witnesses (TLC must VIOLATE each)
 \* a reading with an offset is encoded as its instant: the same bytes as the naive reading of wall - offset
